@@ -148,6 +148,10 @@ pub struct PlaceObs {
     pub priors: u8,
     #[serde(default)]
     pub sibling_faked: bool,
+    /// (value the sibling's fake yields, value a call of the sibling returned after the
+    /// installation under test)
+    #[serde(default)]
+    pub sibling_after: Option<(u64, u64)>,
     #[serde(default)]
     pub mprotect_fault_hit: bool,
     /// value returned to the call made from the flush hook (None = no such call was made)
@@ -272,6 +276,7 @@ fn execute_inner(c: &PlaceCase) -> PlaceObs {
     // ---- target
     let mut _target_arena: Option<Arena> = None;
     let mut sibling: Option<usize> = None;
+    let mut sibling_expect: Option<u64> = None;
     let target = match &c.target {
         TargetSel::RealAsync(k) => {
             // (with a synthetic fake: the poll function of an async fn, dictated placements)
@@ -301,7 +306,8 @@ fn execute_inner(c: &PlaceCase) -> PlaceObs {
                 a.put_ret_id(addr + 16 * k, 0x6100 + k as u32);
             }
             a.put_ret_id(addr, id);
-            if c.sibling_first && (*off as usize % PAGE) >= 0x200 {
+            if c.sibling_first && ((*off as usize % PAGE) >= 0x200 || addr == base) {
+                // (a page-aligned target has its sibling above it, any other one below)
                 a.put_ret_id(base + 0x100, 0x6200);
                 sibling = Some(base + 0x100);
             }
@@ -388,12 +394,13 @@ fn execute_inner(c: &PlaceCase) -> PlaceObs {
     if let Some(sib) = sibling {
         let t2 = targets::synthetic_target(sib, Class::U, 0x6200, "sibling".into());
         let r = std::panic::catch_unwind(std::panic::AssertUnwindSafe(|| ip::sut(|| targets::install(&mut inj, &t2, Kind::Raw, 1))));
-        if r.is_err() {
+        let Ok(inst) = r else {
             o.status = "discarded".into();
             o.why = format!("the installation on the sibling was refused: {}", crate::worker::last_panic());
             let _ = std::panic::catch_unwind(std::panic::AssertUnwindSafe(|| ip::sut(|| drop(inj))));
             return o;
-        }
+        };
+        sibling_expect = Some(inst.value);
         o.sibling_faked = true;
     }
     for (kind, k) in c.prior.iter().take(4) {
@@ -595,6 +602,12 @@ fn execute_inner(c: &PlaceCase) -> PlaceObs {
         }
     }
     o.orig_runs_during = targets::ORIG_RUNS.load(SeqCst) - orig_runs0;
+    // ---- the sibling faked earlier must still reach its own fake
+    if let (Some(sib), Some(want)) = (sibling, sibling_expect) {
+        crate::worker::phase("call-sibling-faked-earlier");
+        let got = unsafe { (std::mem::transmute::<usize, fn() -> u64>(sib))() };
+        o.sibling_after = Some((want, got));
+    }
     // ---- drop
     crate::worker::phase("drop");
     let dropped = std::panic::catch_unwind(std::panic::AssertUnwindSafe(|| ip::sut(|| drop(inj))));
@@ -631,6 +644,7 @@ pub fn strategy_sel(only_async: bool) -> impl Strategy<Value = PlaceCase> {
         3 => 0u16..0x1000,
         4 => 0xFF0u16..=0xFFF,
         1 => (0u16..256).prop_map(|k| k * 16),
+        1 => Just(0u16),
     ];
     let target = prop_oneof![
         2 => (0u8..9).prop_map(TargetSel::Real),
